@@ -181,6 +181,44 @@ func (c *Ctx) noDropRules(rule string) {
 				}
 			}
 		}
+		// … or the answer of a helper of the package that is handed this block and renders its functions that way
+		helperCall, helperTerm := a[2], nw
+		if ex, isEx := a[2].(*ssa.Extract); isEx && ex.Index == 0 {
+			helperCall, helperTerm = ex.Tuple, nw.Args[0] // (string, error): the error is checked in between (C14-9)
+		}
+		if cv, isCall := helperCall.(*ssa.Call); isCall && !rendered {
+			if h := cv.Call.StaticCallee(); h != nil && h.Blocks != nil && inPkg(h, "/pkg/generator") && len(c.CallsIn(h, "(*"+pGen+"Generator).FuncToString", false)) > 0 {
+				rets := core.Returns(h)
+				sameBlock := false
+				for _, arg := range helperTerm.Args {
+					if len(old.Args) == 1 && arg.String() == old.Args[0].String() {
+						sameBlock = true // the helper gets the very block whose marker is replaced
+					}
+				}
+				nStr, okRets := 0, true
+				for _, hr := range rets {
+					ht := c.O.Of(hr.Results[0])
+					switch {
+					case ht.IsCallTo("(*strings.Builder).String"):
+						nStr++
+					case ht.Is("const", `""`) && len(hr.Results) == 2: // the error exits
+					default:
+						okRets = false
+					}
+				}
+				if nStr >= 1 && okRets && sameBlock {
+					ranges := false
+					for _, b := range h.Blocks {
+						for _, in := range b.Instrs {
+							if v, isV := in.(ssa.Value); isV && c.O.Of(v).IsField("model.FunctionsBlock.Functions") {
+								ranges = true
+							}
+						}
+					}
+					rendered = ranges
+				}
+			}
+		}
 		ok := old.IsField("model.FunctionsBlock.Marker") && rendered && (cnt.Is("const", "1") || cnt.Is("const", "-1"))
 		r.Check(rule, FnKey(s.Fn)+":replace-operands", c.Pos(s.Pos()), ok, "the marker of the block must be replaced by the rendered functions of that block: Replace(code, block.Marker, sb.String(), 1); got old="+old.String()+" new="+nw.String())
 	}
